@@ -1,20 +1,20 @@
 """Constructors for operation records (mirror of spec/ModelLib.tla) used to write witness files."""
 import json
 
-def S(s): return {"t": "S", "v": [ord(c) for c in s]} if isinstance(s, str) else {"t": "S", "v": list(s)}
-def B(b): return {"t": "B", "v": list(b)}
+def S(s): return {"t": "S", "s": [ord(c) for c in s]} if isinstance(s, str) else {"t": "S", "s": list(s)}
+def B(b): return {"t": "B", "b": list(b)}
 def N(text):
     t = str(text); neg = t.startswith("-"); t = t.lstrip("+-")
     mant, _, ex = t.lower().partition("e")
     ip, _, fp = mant.partition(".")
-    return {"t": "N", "v": {"neg": neg, "d": [int(c) for c in ip + fp], "e": (int(ex) if ex else 0) - len(fp), "sp": [ord(c) for c in str(text)]}}
-def BOOL(b): return {"t": "BOOL", "v": b}
-NULL = {"t": "NULL", "v": 0}
-def L(*xs): return {"t": "L", "v": list(xs)}
-def M(**kw): return {"t": "M", "v": kw}
-def SS(*xs): return {"t": "SS", "v": [[ord(c) for c in x] for x in xs]}
-def NS(*xs): return {"t": "NS", "v": [N(x)["v"] for x in xs]}
-def BS(*xs): return {"t": "BS", "v": [list(x) for x in xs]}
+    return {"t": "N", "n": {"neg": neg, "d": [int(c) for c in ip + fp], "e": (int(ex) if ex else 0) - len(fp), "sp": [ord(c) for c in str(text)]}}
+def BOOL(b): return {"t": "BOOL", "bool": b}
+NULL = {"t": "NULL", "null": 0}
+def L(*xs): return {"t": "L", "l": list(xs)}
+def M(**kw): return {"t": "M", "m": kw}
+def SS(*xs): return {"t": "SS", "ss": [[ord(c) for c in x] for x in xs]}
+def NS(*xs): return {"t": "NS", "ns": [N(x)["n"] for x in xs]}
+def BS(*xs): return {"t": "BS", "bs": [list(x) for x in xs]}
 
 NOCOND = {"some": False, "ast": {"k": "none"}}
 def cond(ast): return {"some": True, "ast": ast}
